@@ -171,14 +171,24 @@ def read_ndjson(path):
 
 
 def load_known():
-    p = os.path.join(VERIF, "known_findings.jsonl")
+    """known_findings.txt: one finding per line,
+         known: property=<id> id=<KF-..> clause=<clause|*> witness=<classifier> what=<free text to end of line>
+         fixed: property=<id> <commit> <what failed>          (suppresses nothing)"""
+    p = os.path.join(VERIF, "known_findings.txt")
     out = []
     if os.path.exists(p):
         with open(p) as fh:
             for line in fh:
                 line = line.strip()
-                if line and not line.startswith("#"):
-                    out.append(json.loads(line))
+                if not line.startswith("known:"):
+                    continue
+                body = line[len("known:"):].strip()
+                head, _, what = body.partition(" what=")
+                rec = dict(status="known", what=what.strip())
+                for tok in head.split():
+                    k, _, v = tok.partition("=")
+                    rec[k] = v
+                out.append(rec)
     return out
 
 
